@@ -16,7 +16,7 @@ func init() {
 			return cross(one("n", rng(0, top)...), one("sub", 0, 1, 2, 3))
 		}})
 	reg(&Oblig{ID: "PDF-A-hl", Pkg: "pdf417", Func: "VP_PDF_hl", Props: []string{"C04", "C10"}, Desc: "highlevelEncode on symbolic bytes after concrete prefixes establishing text / byte / numeric / punctuation states: the reference decoder returns the data byte for byte",
-		Real: []string{"pdf417.highlevelEncode", "pdf417.encodeText", "pdf417.encodeBinary", "pdf417.encodeNumeric", "pdf417.determineConsecutive*"},
+		Real:  []string{"pdf417.highlevelEncode", "pdf417.encodeText", "pdf417.encodeBinary", "pdf417.encodeNumeric", "pdf417.determineConsecutive*"},
 		Stubs: []string{oracle, "math/big modelled for values below 2^63 (digit runs up to 17 digits); longer symbolic digit runs are outside the claim"},
 		Bound: "n <= 2 fully symbolic bytes after each of 6 prefixes quick; n <= 3 thorough; 1 symbolic byte between 5 prefixes (text runs ending in Upper/Lower/Mixed/Punctuation) and a concrete lower-case continuation",
 		Configs: func(tier string, seed int64) []map[string]int {
